@@ -1,6 +1,6 @@
 """Property -> rules mapping."""
 from .core import Ctx
-from .rules import k1, reclaim, schemes, seqlock
+from .rules import k1, reclaim, schemes, seqlock, vyukov, harris
 
 ALL_FILES = [".hpp"]
 RECL = ["reclamation/"]
@@ -73,11 +73,59 @@ def C02(ctx):
     return ("Decides structural necessary conditions of exactly-once destruction.", "eventual reclamation; exactly-once under racing adoption")
 
 
+def C08(ctx):
+    k1_rules(ctx, "C08")
+    reclaim.reclaim_after_unlink(ctx, FILES["C08"])
+    harris.ordering_predicates(ctx)
+    harris.erase_protocol(ctx)
+    harris.insert_protocol(ctx)
+    harris.find_protocol(ctx)
+    harris.use_after_move(ctx, FILES["C08"])
+    return ("Decides structural necessary conditions of the Harris-Michael set/map: total order of the search predicate (exhaustive), mark-then-"
+            "unlink erase protocol with per-attempt validation of the expected value, insert protocol (next before link, same expected, searched "
+            "key is the inserted key, no use of a moved-from key), bucket selection agreement, reclaim after unlink, memory orders.",
+            "linearizability; helping correctness in find()")
+
+
+def C09(ctx):
+    k1_rules(ctx, "C09")
+    reclaim.reclaim_after_unlink(ctx, FILES["C09"])
+    harris.ordering_predicates(ctx)
+    harris.iterator_rules(ctx)
+    harris.find_protocol(ctx)
+    ctx.only_skip = ("HM.insert", "HM.bucket")
+    harris.erase_protocol(ctx)
+    harris.use_after_move(ctx, FILES["C09"])
+    return ("Decides: the re-scan predicate is a total order (exhaustive finite evaluation); iterators obtain successors through acquire_if_equal, "
+            "keep prev paired with the save guard, copy the key before re-finding; erase(iterator) guards the successor before unlinking.",
+            "weak consistency of traversals relative to the update history")
+
+
 def C10(ctx):
     k1_rules(ctx, "C10")
     reclaim.reclaim_after_unlink(ctx, FILES["C10"])
     ctx.floor("K4.reclaim-after-unlink", 3)
-    return ("Decides structural necessary conditions of the vyukov_hash_map protocol.", "linearizability")
+    vyukov.reader_validation(ctx)
+    vyukov.marker_protocol(ctx)
+    vyukov.locking(ctx)
+    vyukov.grow_protocol(ctx)
+    ctx.only_skip = ("VHM.iterator-lock",)
+    vyukov.iterator_rules(ctx)
+    return ("Decides structural necessary conditions of the vyukov_hash_map protocol: reclaim only after a successful extraction; every return "
+            "of the lock-free reader passes a version re-validation after its last shared read and the delete-marker test; writer side marker/"
+            "key/value/version order and marker value; bucket lock pairing; grow ordering and index mapping; memory orders.",
+            "linearizability; torn/ABA-free optimistic reads under all schedules")
+
+
+def C11(ctx):
+    ctx.only = ("K1.", "VHM.iterator-lock", "VHM.iterator-position", "VHM.marker", "VHM.lock-pairing")
+    k1_rules(ctx, "C11")
+    vyukov.marker_protocol(ctx)
+    vyukov.locking(ctx)
+    vyukov.iterator_rules(ctx)
+    return ("Decides the iterator lock typestate (including special members), coherence of the cached bucket state after erase(iterator&), "
+            "paired position fields extension/prev, and the marker protocol on the iterator's removal paths.",
+            "traversal completeness under concurrent writers on other buckets")
 
 
 def C17(ctx):
@@ -103,7 +151,7 @@ def C14(ctx):
             "load/store/update, reader/writer slot-index agreement, memory orders.", "absence of torn reads under all interleavings")
 
 
-PROPS = {"C14": C14, "C01": C01, "C02": C02, "C03": C03, "C10": C10, "C17": C17, "C18": C18}
+PROPS = {"C14": C14, "C11": C11, "C08": C08, "C09": C09, "C01": C01, "C02": C02, "C03": C03, "C10": C10, "C17": C17, "C18": C18}
 
 
 def run(prop, tier):
